@@ -134,12 +134,12 @@ def type_test(eng: Engine, st: State, v: V, tname: str, node):
         if isinstance(v, VPy):
             return isinstance(v.obj, int) if tname == "Number" else (isinstance(v.obj, int))
         return isinstance(v, VScalar) and v.ty.kind in (("int", "bool") if tname == "Number" else ("int",))
-    if tname in eng.classes:
-        return False
     if isinstance(v, VScalar) and v.ty.kind == "opaque":
         r = eng.registry.globals.get(("isinstance", v.ty.name, tname))
         if r is not None:
             return r(eng, st, v) if callable(r) else r
+    if tname in eng.classes:
+        return False
     raise Unsupported("isinstance(%s, %s)" % (type(v).__name__, tname), node)
 
 
@@ -305,6 +305,15 @@ def method(eng: Engine, e: ast.Call, st: State, recv: V, m: str, args: List[V], 
 
     S = eng.S
     lv = e.func.value if isinstance(e.func, ast.Attribute) else None
+    if isinstance(recv, VOpt):
+        # method call on an optional value: None has no such method (AttributeError), otherwise the wrapped value
+        t, f = eng.branch(st, recv.is_none, e)
+        out = []
+        if t is not None:
+            out.append((t, Raised("AttributeError")))
+        if f is not None:
+            out.extend(method(eng, e, f, recv.val, m, args, kwargs))
+        return out
     # ---- user objects: contract of the method
     if isinstance(recv, VScalar) and recv.ty.kind == "obj":
         c = eng.registry.method_contract(eng, recv.ty.name, m)
